@@ -56,6 +56,7 @@ type mLeaf struct {
 	anon        [2]int                   // special-stateid I/O in flight that holds the leaf open
 	pendingOpen [2]int                   // OPENs parked after the directory opened the leaf
 	locks       map[string]*[nUnits]int8 // lock table: owner key -> per unit 0 none / 1 shared / 2 exclusive
+	everLocked  bool                     // a lock was granted on the file at some point
 }
 
 type mClient struct {
@@ -83,6 +84,7 @@ type mLast struct {
 	kind    string
 	status  nfsv4.Nfsstat4
 	bytes   []byte // XDR of the result operation of the first execution
+	next    []byte // OPEN: XDR of the result of the operation that followed it (GETFH) in the first execution
 	respSid *sid   // state ID in an OK reply of CLOSE/OPEN_CONFIRM/OPEN_DOWNGRADE/LOCK/LOCKU
 	closed  *mOF
 	step    int
@@ -148,6 +150,7 @@ type model struct {
 	usedFH       map[string]bool
 	otherFlights int // requests in flight besides the one being evaluated
 	dirMoves     int // number of successful directory mutations (create/remove)
+	loggedErrors int // errors the file system must have reported to its error logger
 
 	ev map[string]int // event labels
 }
